@@ -29,7 +29,7 @@ VecB == {Feat(<<Scn(<<Lit("M")>>, <<"o1", "o2">>,
                    <<Step(<<Lit("s1 "), Ph("a")>>, <<Lit("doc "), Ph("b"), Lit(" end")>>, <<>>),
                      Step(<<Lit("s2")>>, <<>>, << <<Ph("a")>>, <<Lit("cell")>>, <<Ph("b"), Ph("a")>> >>)>>,
                    tbs)>>,
-              <<Scn(<<Lit("R "), Ph("b")>>, <<>>, <<Step(<<Ph("b")>>, <<>>, <<>>)>>, tbs)>>)
+              <<Plain1, Scn(<<Lit("R "), Ph("b")>>, <<>>, <<Step(<<Ph("b")>>, <<>>, <<>>)>>, tbs), Plain1>>)
           : tbs \in UNION {{ <<Tb(<<"t1">>, <<"a", "b">>, <<<<"v1", x>>>>), Tb(<<>>, <<"b", "a">>, <<<<x, "v3">>, <<"v4", "v5">>>>)>>,
                               <<Tb(<<"t1", "t2">>, <<"a", "b">>, <<>>)>>,            \* header only: no scenario
                               <<Tb(<<>>, <<"a", "b">>, <<>>), Tb(<<"t3">>, <<"a", "b">>, <<<<x, x>>>>)>> } : x \in Values} }
@@ -43,7 +43,8 @@ VecC == {Feat(<<Scn(<<Lit("U "), Ph(n)>>, <<>>, <<Step(<<Ph("a"), Ph(m)>>, <<>>,
 NamesD == {"a.b", "é", "x-1", "A_2"}
 VecD == {LET n == p[1]   m == p[2] IN
          Feat(<<Scn(<<Ph(n), Lit(" / "), Ph(m)>>, <<"o1">>,
-                   <<Step(<<Lit("do "), Ph(m), Ph(n)>>, <<Ph(n)>>, << <<Ph(m), Lit("k")>> >>)>>,
+                   <<Step(<<Lit("do "), Ph(m), Ph(n)>>, <<Ph(n)>>,
+                          << <<Ph(m), Lit("k")>>, <<Lit("c2")>>, <<Ph(n)>>, <<Ph(m), Ph(n)>> >>)>>,   \* a 2 x 2 table
                    <<Tb(<<"t1">>, <<n, m>>, <<<<"v1", x>>, <<x, "v2">>, <<"", "v3">>>>),
                      Tb(<<>>, <<m, n>>, <<<<"w1", "w2">>>>),
                      Tb(<<"t2">>, <<n, "unused", m>>, <<<<x, "u", x>>, <<"v7", "u", "v8">>, <<"v9", "", "">>>>)>>),
